@@ -5,8 +5,10 @@ State of the ghost file system: every path object (interface `PathI`) has a ghos
 the file's contents *as stored*, i.e. the characters that reading with `newline=''` would give.  Reading a
 file opened in text mode with the default `newline=None` decodes with universal-newline translation:
     decoded = univ(stored)      ('\\r\\n' and '\\r' become '\\n')
-Writing in text mode on POSIX stores the text unchanged.  Positions of a text file on disk are byte
-offsets: `utf8_len(s)` is the number of bytes of s, equal to len(s) exactly for ASCII texts.
+Writing in text mode on POSIX stores the text unchanged.  A text file on disk has a ghost position `pos`
+counted in characters of the stored text; `tell()` gives an opaque cookie that `seek(cookie)` maps back to
+that position.  An integer that is not such a cookie (and not 0) is a BYTE offset: `utf8_len(s)` is the
+number of bytes of s, equal to len(s) exactly for ASCII texts.
 The environment does not fail (no OSError: unused paths are unused, the disk is not full); this is an
 assumption of every proof that uses these models, listed in evidence.
 
@@ -24,7 +26,7 @@ try:
 except ImportError:      # replays run under the repository's interpreter, without z3
     z3 = None
 
-from .api import Interface, Method, Ty, Str, Bool, new_opaque, _Str
+from .api import Interface, Method, Ty, Str, Bool, Int, new_opaque, _Str
 from .path import Unsupported
 from .values import SInt, SBool, SStr, SOpt, SChoice, SList, Sym, Opaque, to_z3, wrap
 from . import models, texts
@@ -117,7 +119,7 @@ def _path_open(interp, self, args, kwargs):
         if mode.startswith('x') and self._pv_ghost.get('exists', True) and not self._pv_ghost.get('unused'):
             raise Unsupported('exclusive creation of a path that is not known to be unused')
         f = new_opaque(interp, TextFileI, self._pv_uid + '.open(%s)' % mode)
-        f._pv_ghost.update(path=self, mode=mode, at_end=True, closed=False)
+        f._pv_ghost.update(path=self, mode=mode, pos=z3.IntVal(0), closed=False, cookies={})
         set_stored(interp, self, _sv(''))
         self._pv_ghost['exists'] = True
         self._pv_ghost['unused'] = False
@@ -198,17 +200,42 @@ class STextReader(models.SIter):
 
 # ------------------------------------------------------------------------------ writing
 
+def pos_of(interp, f):
+    """character position (term) of a modelled text file / StringIO"""
+    p = f._pv_ghost.get('pos')
+    if p is None:
+        p = to_z3(interp.reg.opaque_getattr(interp, f, 'pos0'))
+        interp.st.assume(z3.And(p >= 0, p <= z3.Length(_contents_of(interp, f))))
+        f._pv_ghost['pos'] = p
+    return _t(p)
+
+
+def _contents_of(interp, f):
+    g = f._pv_ghost
+    if 'path' in g:
+        return stored_of(interp, g['path'])
+    return _sio_value(interp, f)
+
+
+def _write_at_pos(interp, f, old, s):
+    """the contents after writing s at the current position: appended when the position is the end;
+    anywhere else the write overwrites -- what the contents are then is not modelled (unknown)"""
+    st = interp.st
+    pos = pos_of(interp, f)
+    at_end = z3.simplify(pos == z3.Length(old))
+    new = z3.Concat(old, _t(s))
+    if not z3.is_true(at_end) and not st.must_hold(at_end):
+        new = z3.If(at_end, new, st.fresh_str('overwritten'))
+    f._pv_ghost['pos'] = z3.simplify(pos + z3.Length(_t(s)))
+    return z3.simplify(new)
+
+
 def append_to(interp, out, s):
     """the effect of `out.write(s)` on a modelled output (ghost `written` / the stored file)"""
     g = out._pv_ghost
     if 'path' in g:
         p = g['path']
-        old = stored_of(interp, p)
-        new = z3.Concat(old, _t(s))
-        if g['at_end'] is not True:
-            # writing anywhere but at the end overwrites: what the file holds afterwards is not modelled
-            new = z3.If(to_z3(g['at_end']), new, interp.st.fresh_str('overwritten'))
-        set_stored(interp, p, z3.simplify(new))
+        set_stored(interp, p, _write_at_pos(interp, out, stored_of(interp, p), s))
     else:
         g['written'] = z3.simplify(z3.Concat(written_of(interp, out), _t(s)))
 
@@ -255,19 +282,27 @@ def _w_writelines(interp, self, args, kwargs):
 
 def _f_seek(interp, self, args, kwargs):
     g = self._pv_ghost
+    st = interp.st
     off = args[0]
     whence = args[1] if len(args) > 1 else 0
     if whence != 0:
         raise Unsupported('seek with whence != SEEK_SET')
-    p = g['path']
-    end = blen(interp, stored_of(interp, p))
+    stored = stored_of(interp, g['path'])
     if isinstance(off, int) and off == 0:
-        g['at_start'] = True
-        g['at_end'] = wrap(end == 0)
+        g['pos'] = z3.IntVal(0)
         return 0
-    # a byte offset: the position is the end of the file exactly when the offset is the file's size in bytes
-    g['at_start'] = False
-    g['at_end'] = wrap(to_z3(off) == end)
+    ent = g.setdefault('cookies', {}).get(to_z3(off).get_id()) if isinstance(off, SInt) else None
+    if ent is not None:
+        g['pos'] = ent[1]          # a cookie of this file: the character position it was taken at
+        return off
+    # any other integer is a byte offset: it denotes the character position whose prefix has that many bytes --
+    # the same number for an ASCII text, the end exactly for the size of the file in bytes; else unknown
+    k = st.fresh_int(self._pv_uid + '.pos')
+    o = to_z3(off)
+    st.assume(z3.And(k >= 0, k <= z3.Length(stored)))
+    st.assume(z3.Implies(z3.InRe(stored, z3.Star(z3.Range('\x00', '\x7f'))), k == o))
+    st.assume((o == blen(interp, stored)) == (k == z3.Length(stored)))
+    g['pos'] = k
     return off
 
 
@@ -275,13 +310,25 @@ def _f_read(interp, self, args, kwargs):
     g = self._pv_ghost
     if args or kwargs:
         raise Unsupported('read(size) of a text file')
-    if '+' not in g['mode']:
+    if 'path' in g and '+' not in g['mode']:
         raise _pyraise(io.UnsupportedOperation('not readable'))
-    if g.get('at_start') is not True:
+    pos = z3.simplify(pos_of(interp, self))
+    if not (z3.is_int_value(pos) and pos.as_long() == 0) and not interp.st.must_hold(pos == 0):
         raise Unsupported('read() of a file opened for update that is not positioned at its start')
-    g['at_start'] = False
-    g['at_end'] = True
-    return wrap(univ(interp, stored_of(interp, g['path'])))
+    whole = _contents_of(interp, self)
+    g['pos'] = z3.Length(whole)
+    return wrap(univ(interp, whole)) if 'path' in g else wrap(whole)
+
+
+def _f_tell(interp, self, args, kwargs):
+    """an opaque cookie for the current character position (0 exactly at the start)"""
+    g = self._pv_ghost
+    st = interp.st
+    pos = pos_of(interp, self)
+    c = st.fresh_int(self._pv_uid + '.cookie')
+    st.assume(z3.And(c >= 0, (c == 0) == (pos == 0)))
+    g.setdefault('cookies', {})[c.get_id()] = (c, pos)
+    return SInt(c)
 
 
 def _f_fileno(interp, self, args, kwargs):
@@ -301,10 +348,6 @@ def _f_enter(interp, self, args, kwargs):
     return self
 
 
-def _f_tell(interp, self, args, kwargs):
-    raise Unsupported('tell() of a text file on disk (opaque cookie)')
-
-
 class TextOutI(Interface):
     """`output: TextIO` of write_to: something text can be appended to (ghost `written`)"""
     target_class = io.TextIOBase
@@ -317,6 +360,7 @@ class TextOutI(Interface):
 
 class TextFileI(TextOutI):
     """a text file on disk opened for writing / update through PathI.open"""
+    attrs = {'pos0': Int}
     props = {'closed': lambda interp, self: self._pv_ghost['closed']}
     methods = {
         'seek': Method(model=_f_seek),
@@ -342,30 +386,55 @@ def _sio_value(interp, self):
 def _sio_write(interp, self, args, kwargs):
     s = _as_text(interp, args[0])
     g = self._pv_ghost
-    g['value'] = z3.simplify(z3.Concat(_sio_value(interp, self), to_z3(s)))
+    g['value'] = _write_at_pos(interp, self, _sio_value(interp, self), s)
     return wrap(z3.Length(to_z3(s)))
 
 
+def _sio_seek(interp, self, args, kwargs):
+    off = args[0]
+    if len(args) > 1 and args[1] != 0:
+        raise Unsupported('seek with whence != SEEK_SET')
+    self._pv_ghost['pos'] = _t(off)        # characters
+    return off
+
+
+def _sio_iter(interp, self, args, kwargs):
+    """iterating a StringIO(newline='\n') from its start: the division of its value after '\n' only"""
+    g = self._pv_ghost
+    it = g.get('iter')
+    if it is None:
+        pos = z3.simplify(pos_of(interp, self))
+        if not (z3.is_int_value(pos) and pos.as_long() == 0):
+            raise Unsupported('iteration of a StringIO that is not positioned at its start')
+        it = models.SIter(texts.lines_of_text(interp, SStr(_sio_value(interp, self))), 0)
+        g['iter'] = it
+    return it
+
+
 class StringIOI(Interface):
-    """io.StringIO(newline='\\n') that is only ever appended to: no newline translation, the position
-    is the end, tell() is the number of characters"""
+    """io.StringIO(newline='\n'): no newline translation; the position counts characters, tell() is it"""
     target_class = io.StringIO
-    attrs = {'value0': Str}
+    attrs = {'value0': Str, 'pos0': Int}
     props = {'closed': lambda interp, self: self._pv_ghost.get('closed', False)}
     methods = {
         'write': Method(model=_sio_write),
         'getvalue': Method(model=lambda interp, self, args, kwargs: wrap(_sio_value(interp, self))),
-        'tell': Method(model=lambda interp, self, args, kwargs: wrap(z3.Length(_sio_value(interp, self)))),
+        'tell': Method(model=lambda interp, self, args, kwargs: wrap(pos_of(interp, self))),
+        'seek': Method(model=_sio_seek),
+        'read': Method(model=_f_read),
+        '__iter__': Method(model=_sio_iter),
         'flush': Method(),
         'close': Method(model=_f_close),
     }
 
 
 def m_StringIO(interp, args, kwargs):
-    if args or kwargs.get('newline') != '\n' or set(kwargs) - {'newline'}:
-        raise Unsupported('io.StringIO other than StringIO(newline="\\n")')
+    if len(args) > 1 or kwargs.get('newline') != '\n' or set(kwargs) - {'newline'}:
+        raise Unsupported('io.StringIO other than StringIO([text, ]newline="\\n")')
     o = new_opaque(interp, StringIOI, 'StringIO')
-    o._pv_ghost['value'] = _sv('')
+    init = _as_text(interp, args[0]) if args else ''
+    o._pv_ghost['value'] = _t(init)
+    o._pv_ghost['pos'] = z3.IntVal(0)          # also with an initial value the position is the start
     return o
 
 
